@@ -3161,6 +3161,13 @@ class Mailbox:
         else:
             raise MailboxExists(f"Destination mailbox '{new_name}' exists")
 
+        # Like CREATE, RENAME creates the superior hierarchical names of the new
+        # name if they do not exist yet.
+        #
+        new_parent = os.path.dirname(new_name)
+        if new_parent and not server.folder_exists(new_parent):
+            await Mailbox.create(new_parent, server)
+
         # Inbox is handled specially.
         #
         if mbox.name.lower() != "inbox":
